@@ -860,7 +860,12 @@ impl<'a> Gen<'a> {
 
     fn inline_stmts(&mut self) -> Vec<Stmt> {
         let n = 1 + self.rng.geometric(2) as usize;
-        (0..n).map(|_| self.simple()).collect()
+        let mut v: Vec<Stmt> = (0..n).map(|_| self.simple()).collect();
+        // a branch may end the program
+        if self.cfg.end_mid && !self.tron_on && self.rng.pct(12) {
+            v.push(Stmt::End);
+        }
+        v
     }
 
     fn block(&mut self, depth: u32, budget: usize, out: &mut Vec<Draft>) {
@@ -1485,6 +1490,24 @@ impl<'a> Gen<'a> {
             main.push(Draft {
                 label: None,
                 stmts: vec![Stmt::End],
+            });
+        } else if self.rng.pct(25) {
+            // the program's last statement is an END inside an IF branch (taken or not)
+            let cond = self.cond(1);
+            let mut then = vec![];
+            if self.rng.pct(40) {
+                then.push(self.simple());
+            }
+            then.push(Stmt::End);
+            let els = if self.rng.pct(30) { Some(Branch::Stmts(vec![Stmt::End])) } else { None };
+            main.push(Draft {
+                label: None,
+                stmts: vec![Stmt::If {
+                    cond,
+                    goto_form: false,
+                    then: Branch::Stmts(then),
+                    els,
+                }],
             });
         }
         let mut all: Vec<Draft> = vec![];
